@@ -8,6 +8,8 @@ import (
 	"os"
 	"os/exec"
 	"path/filepath"
+	"regexp"
+	"strconv"
 	"strings"
 	"sync"
 
@@ -18,14 +20,21 @@ import (
 func init() { props["C14"] = runC14 }
 
 type c14op struct {
-	kind int // 0 aggregate, 1 agg+html, 2 snapshot html, 3 console buckets, 4 console goroutines
+	kind int // 0 aggregate, 1 agg+html, 2 snapshot html, 3 console buckets, 4 console goroutines, 5/6 goroutines with -f / -m, 7/8 buckets with -f / -m
 	lvl  int
 	pf   int
+	sel  int // kinds 5..8: the goroutine whose id the regular expression is built from
 }
 
 func (o c14op) String() string {
-	return fmt.Sprintf("%s(level=%d,pf=%d)", []string{"Aggregate", "Aggregate+ToHTML", "Snapshot.ToHTML", "console buckets", "console goroutines"}[o.kind], o.lvl, o.pf)
+	return fmt.Sprintf("%s(level=%d,pf=%d,sel=%d)", []string{"Aggregate", "Aggregate+ToHTML", "Snapshot.ToHTML", "console buckets", "console goroutines",
+		"console goroutines filtered (-f)", "console goroutines matched (-m)", "console buckets filtered (-f)", "console buckets matched (-m)"}[o.kind], o.lvl, o.pf, o.sel)
 }
+
+// headerRe matches the console header of goroutine id (goroutine rendering) or
+// of a bucket of exactly that many members (bucket rendering): both start with
+// "<n>: ".
+func headerRe(n int) *regexp.Regexp { return regexp.MustCompile(`^` + strconv.Itoa(n) + `: `) }
 
 func (o c14op) run(s *stack.Snapshot) string {
 	var b bytes.Buffer
@@ -38,8 +47,28 @@ func (o c14op) run(s *stack.Snapshot) string {
 		s.ToHTML(&b, template.HTML(""))
 	case 3:
 		verifhooks.WriteBuckets(&b, verifhooks.NewPalette(o.lvl%2 == 0), s.Aggregate(levels[o.lvl]), o.pf, false, nil, nil)
-	default:
+	case 4:
 		verifhooks.WriteGoroutines(&b, verifhooks.NewPalette(o.lvl%2 == 0), s, o.pf, false, nil, nil)
+	case 5, 6:
+		id := 1
+		if len(s.Goroutines) > 0 {
+			id = s.Goroutines[o.sel%len(s.Goroutines)].ID
+		}
+		var f, m *regexp.Regexp
+		if o.kind == 5 {
+			f = headerRe(id)
+		} else {
+			m = headerRe(id)
+		}
+		verifhooks.WriteGoroutines(&b, verifhooks.NewPalette(o.lvl%2 == 0), s, o.pf, false, f, m)
+	default:
+		var f, m *regexp.Regexp
+		if o.kind == 7 {
+			f = headerRe(1 + o.sel%3)
+		} else {
+			m = headerRe(1 + o.sel%3)
+		}
+		verifhooks.WriteBuckets(&b, verifhooks.NewPalette(o.lvl%2 == 0), s.Aggregate(levels[o.lvl]), o.pf, false, f, m)
 	}
 	return reCreatedOn.ReplaceAllString(b.String(), "")
 }
@@ -67,7 +96,7 @@ func runC14(prop string, res *Result, pool *DrvPool, r *Rng) {
 		snap := &stack.Snapshot{Goroutines: sGs(gs)}
 		hist := make([]c14op, 4+r.Intn(9))
 		for k := range hist {
-			hist[k] = c14op{kind: r.Intn(5), lvl: r.Intn(4), pf: pfs[r.Intn(3)]}
+			hist[k] = c14op{kind: r.Intn(9), lvl: r.Intn(4), pf: pfs[r.Intn(3)], sel: r.Intn(64)}
 		}
 		merging := false
 		for k, op := range hist {
@@ -85,7 +114,7 @@ func runC14(prop string, res *Result, pool *DrvPool, r *Rng) {
 				res.Violation(Finding{Stream: "history", What: fmt.Sprintf("%v after the history %v gives a different result than on a fresh snapshot", op, hist[:k]), Op: map[string]interface{}{"gs": gs, "history": fmt.Sprint(hist[:k+1])}})
 				break
 			}
-			if op.kind != 2 && op.kind != 4 && len(snap.Aggregate(levels[op.lvl]).Buckets) < len(gs) {
+			if op.kind != 2 && op.kind != 4 && op.kind != 5 && op.kind != 6 && len(snap.Aggregate(levels[op.lvl]).Buckets) < len(gs) {
 				merging = true
 			}
 		}
@@ -146,10 +175,71 @@ func runC14(prop string, res *Result, pool *DrvPool, r *Rng) {
 			break
 		}
 	}
+	runColdConcurrentScans(res, r.Fork())
 	runRaceProgram(res)
 	// model correspondence of the aggregation itself is C04's; here: aggregate twice = same
 	aggCasesDiv = 4
 	runAgg("C14", res, pool, r.Fork())
+}
+
+// runColdConcurrentScans: several goroutines scan the same dump at the same
+// moment, with path guessing and source analysis on and one shared Opts, while
+// the source file is new to the process (a fresh directory per round): each must
+// get what a scan run alone gets afterwards.  Anything the library keeps between
+// calls (a process-wide source cache, a pooled buffer) is cold in every round.
+func runColdConcurrentScans(res *Result, r *Rng) {
+	for round := 0; round < countN(res.Tier, 6, 60); round++ {
+		dir, err := os.MkdirTemp("", "verif-c14-src-")
+		if err != nil {
+			return
+		}
+		txt, opts := sourceTree(dir, 3+r.Intn(6))
+		const workers = 8
+		got := make([]string, workers)
+		var wg sync.WaitGroup
+		start := make(chan struct{})
+		for w := 0; w < workers; w++ {
+			wg.Add(1)
+			go func(w int) {
+				defer wg.Done()
+				<-start
+				defer func() {
+					if p := recover(); p != nil {
+						got[w] = fmt.Sprintf("panic: %v", p)
+					}
+				}()
+				s, _, _ := stack.ScanSnapshot(strings.NewReader(txt), io.Discard, opts)
+				if s != nil {
+					got[w] = fmt.Sprintf("%+v", derefGs(s.Goroutines))
+				}
+			}(w)
+		}
+		close(start)
+		wg.Wait()
+		alone := ""
+		if s, _, _ := stack.ScanSnapshot(strings.NewReader(txt), io.Discard, opts); s != nil {
+			alone = fmt.Sprintf("%+v", derefGs(s.Goroutines))
+		}
+		os.RemoveAll(dir)
+		res.Count("cold-concurrent-rounds")
+		if !strings.Contains(alone, "Processed:[") || strings.Contains(alone, "Processed:[] Elided:false _:{}} _:{}} RemoteSrcPath:"+dir) && !strings.Contains(alone, "string(") {
+			res.Extra["cold-concurrent"] = "source tree not picked up"
+		}
+		for w := range got {
+			if got[w] != alone {
+				res.Violation(Finding{Stream: "cold-concurrent", What: fmt.Sprintf("%d goroutines scanned the same dump concurrently with sources on disk (shared Opts, file new to the process): worker %d got a different snapshot than a scan run alone: %s", workers, w, diffAround(alone, got[w])), Op: map[string]interface{}{"input": hb(txt), "round": round}})
+				return
+			}
+		}
+	}
+}
+
+func derefGs(gs []*stack.Goroutine) []stack.Goroutine {
+	out := make([]stack.Goroutine, len(gs))
+	for i, g := range gs {
+		out[i] = *g
+	}
+	return out
 }
 
 // runRaceProgram builds harness/c14race with the race detector and runs it.
